@@ -39,7 +39,9 @@ static std::string param_text(const Config &c) {
     << " cm^-3\n  temperature: 8000. K\n  neutral fraction H: 1.\n";
   o << "Abundances:\n  helium: 0.\n";
   o << "TemperatureCalculator:\n  do temperature calculation: false\n";
-  if (c.sources == 1) {
+  if (c.sources == 0) {
+    o << "PhotonSourceDistribution:\n  type: None\n";
+  } else if (c.sources == 1) {
     o << "PhotonSourceDistribution:\n  type: SingleStar\n  position: [0.7 pc, 0.3 pc, 0.2 pc]\n"
          "  luminosity: 4.26e49 s^-1\n";
   } else if (c.sources == 2) {
@@ -88,6 +90,7 @@ struct Job {
   int threads;
   int ownership;
   int bound;
+  bool prune; // bounded search pruned at states already visited with no more deviations used
 };
 
 int main(int argc, char **argv) {
@@ -128,6 +131,12 @@ int main(int argc, char **argv) {
   add("thin-1x1x2", 1, 1, 2, false, 1, false, false, 0, 10, 1, 0.002);
   add("single-subgrid", 1, 1, 1, false, 1, false, true, 0, 7, 2, 0.02);
   add("opaque-diffuse", 2, 1, 1, false, 1, false, true, 0, 7, 1, 100.);
+  // continuous source whose thread-local buffers are exactly emptied by overflow
+  // (all packets enter the single subgrid, 3 per batch = one full buffer): the
+  // flush tasks have nothing to flush and can still be queued when all packets are done
+  add("continuous-exact-fill", 1, 1, 1, false, 0, true, false, 0, 6, 2, 0.005);
+  add("continuous-exact-fill-3", 1, 1, 1, false, 0, true, false, 0, 3, 2, 0.005);
+  add("both-exact-fill", 1, 1, 1, false, 1, true, true, 0, 12, 2, 0.02);
   // tight buffer pools: the round-robin cursor wraps around, freed buffers are
   // re-used at once (capacity is still never exhausted, see NOTES)
   tight("tight-pool-plain", 0, (int)A.geti("tight", 8));
@@ -155,31 +164,39 @@ int main(int argc, char **argv) {
   std::vector< Job > jobs;
   const bool thorough = A.thorough();
   for (const Config &c : cfgs) {
-    jobs.push_back({c, 2, 1, 1});
+    jobs.push_back({c, 2, 1, 1, false});
     if (thorough) {
-      jobs.push_back({c, 2, 0, 1});
-      jobs.push_back({c, 3, 1, 1});
+      jobs.push_back({c, 2, 0, 1, false});
+      jobs.push_back({c, 3, 1, 1, false});
     }
   }
   // deeper bound on selected configurations
-  jobs.push_back({cfgs[0], 2, 1, 2});
+  jobs.push_back({cfgs[0], 2, 1, 2, false});
   if (thorough) {
-    jobs.push_back({cfgs[0], 3, 1, 2});
-    jobs.push_back({cfgs[2], 2, 1, 2});
-    jobs.push_back({cfgs[5], 2, 1, 2});
-    jobs.push_back({cfgs[8], 2, 1, 2});
-    jobs.push_back({cfgs[10], 2, 1, 2});
-    jobs.push_back({cfgs[4], 2, 1, 2});
-    jobs.push_back({cfgs[15], 2, 1, 2}); // tight-pool-plain with post-operation scheduling points
+    jobs.push_back({cfgs[0], 3, 1, 2, false});
+    jobs.push_back({cfgs[2], 2, 1, 2, false});
+    jobs.push_back({cfgs[5], 2, 1, 2, false});
+    jobs.push_back({cfgs[8], 2, 1, 2, false});
+    jobs.push_back({cfgs[10], 2, 1, 2, false});
+    jobs.push_back({cfgs[4], 2, 1, 2, false});
+    for (const Config &c : cfgs)
+      if (c.name == "tight-pool-plain") // with post-operation scheduling points
+        jobs.push_back({c, 2, 1, 2, false});
   } else {
-    jobs.push_back({cfgs[0], 3, 1, 1});
-    jobs.push_back({cfgs[2], 3, 0, 1});
+    jobs.push_back({cfgs[0], 3, 1, 1, false});
+    jobs.push_back({cfgs[2], 3, 0, 1, false});
   }
+  // deep searches pruned at visited states (state = every atomic variable seen + what each thread
+  // observed, incl. task indices): the minimal continuous-source configuration whose flush tasks have
+  // nothing to flush; deviation bound 5 in the thorough tier (about 5e5 executions), 3 in the quick tier
+  for (const Config &c : cfgs)
+    if (c.name == "continuous-exact-fill-3")
+      jobs.push_back({c, 2, 1, thorough ? 5 : 3, true});
   if (!A.get("only").empty()) {
     std::vector< Job > keep;
     for (const Config &c : cfgs)
       if (c.name == A.get("only"))
-        keep.push_back({c, (int)A.geti("threads", 2), (int)A.geti("ownership", 1), (int)A.geti("bound", 1)});
+        keep.push_back({c, (int)A.geti("threads", 2), (int)A.geti("ownership", 1), (int)A.geti("bound", 1), A.geti("prune", 0) != 0});
     jobs = keep;
   }
   if (!A.replay.empty()) {
@@ -189,7 +206,7 @@ int main(int argc, char **argv) {
     for (const Config &c : cfgs)
       if (c.name == cname)
         jobs.push_back({c, (int)atol(replay_field(txt, "threads").c_str()),
-                        (int)atol(replay_field(txt, "ownership").c_str()), -1});
+                        (int)atol(replay_field(txt, "ownership").c_str()), -1, false});
     if (jobs.empty()) {
       fprintf(stderr, "replay: unknown configuration '%s'\n", cname.c_str());
       return 2;
@@ -245,6 +262,11 @@ int main(int argc, char **argv) {
       e1::sched.max_steps = 300000;
       e1::sched.livelock_yields = 200;
       e1::sched.post_points = J.cfg.post_points;
+      if (J.prune) {
+        e1::sched.track_atomics = true;
+        e1::sched.hash_states = true;
+        e1::sched.shared_hash = []() { return e1::tracked_atomics_hash(); };
+      }
       g_expect_continuous = J.cfg.continuous;
       if (!freopen("/dev/null", "w", stdout)) {
       }
@@ -284,14 +306,17 @@ int main(int argc, char **argv) {
 
     e1::ExploreOptions opt;
     opt.max_bound = J.bound;
+    if (A.geti("kinds", -1) >= 0)
+      opt.kind_mask = (unsigned)A.geti("kinds", -1);
+    opt.prune_bounded = J.prune;
     opt.jobs = 16;
     opt.exec_timeout = 60.;
     // share the remaining time over the remaining jobs, weighted by bound
     double remaining = A.deadline - R.elapsed();
     double wsum = 0.;
     for (size_t k = ij; k < jobs.size(); ++k)
-      wsum += jobs[k].bound >= 2 ? 12. : 1.;
-    opt.deadline = std::max(2., remaining * (J.bound >= 2 ? 12. : 1.) / wsum);
+      wsum += jobs[k].bound >= 5 ? 60. : jobs[k].bound >= 2 ? 12. : 1.;
+    opt.deadline = std::max(2., remaining * (J.bound >= 5 ? 60. : J.bound >= 2 ? 12. : 1.) / wsum);
     e1::ExploreStats st = e1::explore(body, opt);
     total_exec += st.executions + 2;
     total_points += st.choice_points;
@@ -306,7 +331,7 @@ int main(int argc, char **argv) {
     std::string verdicts;
     for (auto &kv : st.verdicts)
       verdicts += fmt("%s:%" PRIu64 " ", e1::verdict_name(kv.first), kv.second);
-    R.set_json("run:" + tag + fmt("/bound=%d", J.bound),
+    R.set_json("run:" + tag + fmt("/bound=%d%s", J.bound, J.prune ? "/state-pruned" : ""),
                fmt("{\"executions\": %" PRIu64 ", \"choice_points_default\": %zu, \"max_choice_points\": %" PRIu64
                    ", \"distinct_outcomes\": %zu, \"bound_completed\": %d, \"verdicts\": \"%s\"}",
                    st.executions, d1.choices.size(), st.max_points, st.outcomes.size(), st.bound_completed,
